@@ -139,6 +139,9 @@ def cases(tier, seed):
             poly = str(c.get("input", "")).startswith("poly")
             for s in (["sum-product", "complex-lse-sum"] if poly else sems):
                 out.append({"circuit": c, "semiring": s})
+        # seeded random region-graph circuits (VERIF_SEED changes them)
+        for i, c in enumerate(families.random_members(seed, 240)):
+            out.append({"circuit": c, "semiring": sems[i % 3]})
     return out
 
 
